@@ -66,6 +66,19 @@ def c02(tier, rng):
     for l in POW_BASE:
         for r in POW_EXP:
             cases.append(prog_case(f'{PRELUDE}{P} {l} ** {r};', 'pow'))
+    # strings that are canonically equivalent but different, strings that differ in one character, every pair of
+    # callable values: equality and order are by content / identity, never by appearance
+    twins = ['"ন\u09df"', '"ন\u09af\u09bc"', '"\u00e9"', '"e\u0301"', '"ক\u09cb"', '"ক\u09c7\u09be"', '"\u212b"', '"\u00c5"', '"A\u030a"', '"\u1e9b\u0323"', '"\u1e9b\u0323 "', '"a"', '"A"', '"a "', '" a"',
+             '"\uff21"', '"\u0391"', '"\u0410"', '"ss"', '"\u00df"', '"i"', '"\u0130"', '"1"', '"১"', '"1.0"', '"01"']
+    for op in ['==', '!=', '<', '<=', '>', '>=', '+']:
+        for l in twins:
+            for r in twins:
+                cases.append(prog_case(f'{PRELUDE}{P} {l} {op} {r};', 'string-twins'))
+    callables = list(NAT.values()) + ['f', 'g']
+    for op in ['==', '!=']:
+        for l in callables:
+            for r in callables:
+                cases.append(prog_case(f'{PRELUDE}{P} {l} {op} {r};\n{VAR} h = {l};\n{P} h {op} {r};\n{P} [{l}] {op} [{r}];', 'callable-pairs'))
     # right operands that invite a special case (one third, one half, small integers, their negatives and neighbours)
     # against bases on which the general rule and the special case differ (negative, zero of either sign, Inf, NaN, cubes)
     magic_l = ['(-8)', '27', '8', '125', '(-27)', '(-0)', '0', 'INF', '(-INF)', 'NAN', '2', '10', '(-1)', '0.001', '16', '(-16)', '1', '0.5', '"8"', '(-0.125)']
@@ -96,7 +109,7 @@ def c02(tier, rng):
         e = g.e_any(Scope(), 4)
         cases.append(prog_case(f'{PRELUDE}{P} {r_expr(e)};', 'random-nested'))
     rule = (f'every binary operator x every ordered pair of {len(VALUES)} value expressions (all kinds; boundary magnitudes +-0, 63, 64, 2^31, 2^53, 2^63, 1e308, Inf, NaN; numeric-looking strings; '
-            f'aliased and fresh arrays/objects; user and built-in functions) = {len(BINOPS) * len(VALUES) ** 2}; ** over {len(POW_BASE)}x{len(POW_EXP)} exactly representable cases; 8 operators x {len(magic_l)} bases x {len(magic_r)} notable right operands (thirds, halves, small integers, written as an expression and held in a variable); unary operators once and twice; '
+            f'aliased and fresh arrays/objects; user and built-in functions) = {len(BINOPS) * len(VALUES) ** 2}; ** over {len(POW_BASE)}x{len(POW_EXP)} exactly representable cases; 7 operators x {len(twins)}^2 strings that are canonically equivalent, differ in case / width / one blank, or are numerals of different spelling; == and != on every pair of the {len(callables)} callable values (directly, through a variable, inside an array); 8 operators x {len(magic_l)} bases x {len(magic_r)} notable right operands (thirds, halves, small integers, written as an expression and held in a variable); unary operators once and twice; '
             f'{n} seeded random double pairs written as exact decimal literals; {m} random nested expressions. Non-trivial = prints a value or a diagnostic (all do).')
     return {'cases': cases, 'rule': rule, 'exhaustive': True, 'oracles': [oracle_eq_laws]}
 
@@ -771,6 +784,15 @@ def c12(tier, rng, reps=None):
             src = OBJ_PRE + ''.join(o + '\nshow();\n' for o in seq)
             for k in range(reps if n >= 2 else 1):
                 cases.append(prog_case(src, 'op-sequence', group=f's{dh(seq)}'))
+    # the key handed to the delete built-in is a plain string: it names at most one property of the object it is given,
+    # however much it looks like a path, an index, a pattern or a number
+    odd_keys = ['a.b', 'a.b.c', '.a', 'a.', '.', '', ' ', 'a b', 'a[0]', 'a/b', 'a,b', 'a:b', '*', 'a*', '%s', '%v', '0', '1', '-1', '1.5', 'A', 'aa', 'ab', 'nil', 'true', 'length', 'keys', '__proto__', 'constructor',
+                'ক', 'ক.খ', N['len'], 'a\u0301', '\u00e1', 'b', 'c']
+    for key in odd_keys:
+        src = (f'{VAR} inner = {{b: 1, c: {{d: 2}}}};\n{VAR} o = {{a: inner, b: 5, aa: [inner], ক: {{খ: 1}}}};\n{VAR} alias = o.a;\n{P} "before";\n{N["delete"]}(o, "{key}");\n'
+               f'{P} o;\n{P} inner;\n{P} alias;\n{P} {N["keys"]}(o);\n{P} "after";\n')
+        cases.append(prog_case(src, 'delete-odd-key'))
+        cases.append(prog_case(f'{VAR} o = {{a: {{b: 1}}}};\n{VAR} k = "{key}";\n{P} {N["delete"]}(o.a, k);\n{P} o;\n', 'delete-odd-key'))
     # literals with 0..6 keys in every order of a 4-key subset
     for n in range(0, 7):
         for ks in itertools.permutations(OKEYS[:6], min(n, 4)) if n <= 4 else [tuple(OKEYS[:n])]:
@@ -1057,7 +1079,23 @@ def c15(tier, rng):
     rule = (f'{len(bitsl)} doubles (boundary list, powers of ten +-1 ulp around both exponent switches, {n} seeded random, written as exact decimal literals) printed alone, spliced by + on either side, and inside an array and an object; '
             f'{len(strs)} strings (Latin, Bangla, combining-mark orders, Hangul, singletons, every Bengali-block code point alone, after a consonant, before hasant + ZWJ / ZWNJ / ya / ra / ta / ssa and after a joiner; CR LF and 20 other line-break / control / format characters inside a string; pairs around the decomposable characters) printed alone, nested, and concatenated; constants and callables; sequences of prints in one run (signed zeros in both orders, repeated and equal-but-differently-written values, random sequences). '
             'Checked on the implementation alone: printing is NFC-idempotent for the repertoire, number text re-reads to the same double, "" + v equals the printed text. Non-trivial = all.')
-    return {'cases': cases, 'rule': rule, 'exhaustive': False, 'oracles': [oracle_c15]}
+    # what a print statement wrote is on stdout the moment it ran — also when the run later ends badly or is killed
+    from .runner import CliCase
+    cli = []
+    head = ''.join(f'{P} "line{i}";\n' for i in range(5))
+    for nm, tail_ in [('endless-loop', f'{VAR} i = 0;\n{WHILE} ({TRUE}) {{ i = i + 1; }}\n'), ('endless-printing', f'{VAR} i = 0;\n{WHILE} ({TRUE}) {{ i = i + 1; {IF} (i % 100000 == 0) {{ {P} i; }} }}\n'),
+                      ('unbounded-recursion', f'{FUN} r(n) {{ {RET} r(n + 1) + 1; }}\n{P} r(0);\n'), ('cyclic-print', f'{VAR} a = [1];\na[0] = a;\n{P} a;\n'),
+                      ('runtime-error', f'{P} nope;\n'), ('waits-for-input', f'{P} {N["input"]}("? ");\n{WHILE} ({TRUE}) {{ }}\n')]:
+        cli.append(CliCase('impl-only-output-before-bad-end', ['p.bn'], {'p.bn': (head + tail_).encode()}, b'', 'p.bn', note={'prefix': ''.join(f'line{i}\n' for i in range(5)), 'name': nm}))
+    return {'cases': cases, 'cli': cli, 'cli_oracles': [cli_oracle_prefix], 'cli_timeout': 6, 'rule': rule + ' Six scripts that print five lines and then never end, exhaust the stack, print a cyclic value, fail, or wait: the five lines are on stdout whatever happens next (executable alone).',
+            'exhaustive': False, 'oracles': [oracle_c15]}
+
+def cli_oracle_prefix(clis):
+    bad = []
+    for c in clis:
+        if c.label == 'impl-only-output-before-bad-end' and not c.out.startswith(c.note['prefix'].encode()):
+            bad.append((c, f'{c.note["name"]}: stdout starts {c.out[:60]!r}; the five lines printed before are missing'))
+    return bad
 
 def oracle_c15(cases):
     import struct, unicodedata
@@ -1235,7 +1273,24 @@ def c17(tier, rng):
             cases.append(prog_case(f'{P} {N["min"]}({", ".join(xs)});\n{P} {N["max"]}([{", ".join(xs)}]);\n', 'random-min-max'))
     rule = (f'abs / round / sqrt on {len(args)} boundary arguments (+-0, +-0.5, +-1.5, +-2.5, 2^52+0.5, huge, Inf, NaN, negative, numeric strings) and every other kind; sin/cos/tan on exactly representable cases and every kind; '
             f'pow built-in vs ** on 11x9 exact cases and, as one text-equality test each, on 16x25 argument pairs incl. subnormal / overflowing results; every built-in x 0..4 arguments over 7 kinds; min/max over all permutations of {len(pools)} pools in list and array form plus misuse; {n} seeded random doubles. Non-trivial = all.')
-    return {'cases': cases, 'rule': rule, 'exhaustive': True, 'oracles': [oracle_c17]}
+    # the clock built-in reads the wall clock every time it is called: two readings around a loop of a second or so, taken
+    # inside one function call / one statement / one expression, differ and are in order; readings are seconds since 1970
+    from .runner import CliCase, cli_oracle_expect
+    CLK = N['clock']
+    spin = f'{VAR} s = 0; {FOR} ({VAR} i = 0; i < 1500000; i = i + 1) {{ s = s + i; }}'
+    clock_progs = [
+        (f'{FUN} bench() {{ {VAR} t0 = {CLK}(); {spin} {VAR} t1 = {CLK}(); {P} t1 > t0; {P} t1 - t0 < 600; {RET} t1 - t0; }}\n{P} bench() > 0;\n{P} {CLK}() > 1600000000;\n{P} {CLK}() < 4000000000;\n', 'true\ntrue\ntrue\ntrue\ntrue\n'),
+        (f'{FUN} wait() {{ {spin} {RET} 0; }}\n{P} {CLK}() + wait() < {CLK}();\n{P} [{CLK}(), wait(), {CLK}()][0] < {CLK}();\n{VAR} a = {CLK}(), b = wait(), c = {CLK}();\n{P} a < c;\n', 'true\ntrue\ntrue\n'),
+        (f'{VAR} t0 = {CLK}();\n{VAR} n = 0;\n{WHILE} ({CLK}() - t0 < 0.3) {{ n = n + 1; }}\n{P} n > 0;\n{P} {CLK}() - t0 >= 0.3;\n{P} {CLK}({CLK}());\n', None),
+    ]
+    cli = []
+    for src, out in clock_progs:
+        if out is None:
+            cli.append(CliCase('impl-only-clock', ['p.bn'], {'p.bn': src.encode()}, b'', 'p.bn', note={'out': 'true\ntrue\n', 'status': 70}))
+        else:
+            cli.append(CliCase('impl-only-clock', ['p.bn'], {'p.bn': src.encode()}, b'', 'p.bn', note={'out': out, 'err': '', 'status': 0}))
+    return {'cases': cases, 'cli': cli, 'cli_oracles': [cli_oracle_expect], 'cli_timeout': 60, 'rule': rule + ' Three scripts that read the clock around a second of work inside one call, one expression, one declaration list, and poll it in a loop (executable alone).',
+            'exhaustive': True, 'oracles': [oracle_c17]}
 
 def oracle_c17(cases):
     bad = []
